@@ -12,6 +12,16 @@ let show = function None -> "-" | Some cs -> String.concat ";" (List.map show_ch
 let () =
   iter_lines Sys.argv.(1) (fun line ->
     match split_ws line with
+    | id :: "MEM" :: "T" :: n :: rest ->
+      let n = int_of_string n in
+      let t = List.map (fun x -> z_of_int (int_of_string x)) (take n rest) in
+      (match drop n rest with
+       | "S" :: m :: rest2 ->
+         let s = List.map (fun x -> z_of_int (int_of_string x)) (take (int_of_string m) rest2) in
+         let (p, r) = hir_mem_z t s in
+         let sc = match hirschberg_z t s with None -> 0 | Some cs -> List.length cs in
+         Printf.printf "%s MEM peak_cells=%d retained_cells=%d script=%d\n" id (int_of_nat p) (int_of_nat r) sc
+       | _ -> failwith "bad case")
     | id :: "T" :: n :: rest ->
       let n = int_of_string n in
       let t = List.map (fun x -> z_of_int (int_of_string x)) (take n rest) in
